@@ -45,6 +45,31 @@ pub fn make_histories_sized(seed: u64, n: usize, maxdim: usize, maxextra: u64) -
             tr = tr.wrapping_add(1);
             let mut cfg = gen_cfg(&mut rng, flavour, w, h);
             cfg.tr = tr;
+            // before any intra picture: predicted pictures that find no reference (and, in standard mode,
+            // no picture format either when they do not restate it) - what such a call answers must not
+            // depend on what other decoder instances of the process have seen
+            if !have_ref && rng.chance(1, 3) {
+                let mut p = if rng.chance(1, 2) {
+                    let mut q = gen_intra(&mut rng, &cfg);
+                    match &mut q.hdr {
+                        crate::model::syntax::Hdr::Sor(hd) => hd.ptype = 1 + rng.below(2) as u8,
+                        crate::model::syntax::Hdr::Std(hd) => {
+                            hd.inter = true;
+                            if let Some(pl) = hd.plus.as_mut() {
+                                pl.ptype = 1;
+                            }
+                        }
+                    }
+                    q
+                } else {
+                    gen_inter(&mut rng, &cfg, &InterCfg { ptype: 0, big_vectors_pct: 20, residual_pct: 30, truncate: None, allow_q: true })
+                };
+                if rng.chance(2, 3) {
+                    drop_format(&mut p);
+                }
+                calls.push(p.encode());
+                continue;
+            }
             match rng.below(12) {
                 0 => calls.push(failing_input(&mut rng, &cfg)),
                 10 | 11 => {
@@ -80,7 +105,11 @@ pub fn make_histories_sized(seed: u64, n: usize, maxdim: usize, maxextra: u64) -
                 }
                 3..=6 if have_ref => {
                     let ic = InterCfg { ptype: 0, big_vectors_pct: 40, residual_pct: 60, truncate: if rng.chance(1, 5) { Some(rng.below(6) as usize) } else { None }, allow_q: true };
-                    calls.push(gen_inter(&mut rng, &cfg, &ic).encode());
+                    let mut p = gen_inter(&mut rng, &cfg, &ic);
+                    if rng.chance(1, 3) {
+                        drop_format(&mut p);
+                    }
+                    calls.push(p.encode());
                 }
                 _ => {
                     if have_ref && rng.chance(1, 3) {
